@@ -33,6 +33,7 @@ EXPLANATION = (
     "pre-sweep values).  Writes to loop-carried state outside the loop are only allowed under the "
     "convergence guard.  Decides the structural clauses of C08 for every path, class and "
     "convergence_test value at once; does not decide numerical equality with reference backups."
+    ' Also decides (R8.9) that every call solve(k), k > 0, runs the sweep loop: no path from the entry to a normal return avoids it (a guard on the limit parameter alone excepted), and follows hook methods that apply the convergence guard themselves (R8.6).'
 )
 RULES = {
     "R8.1": "all calls that run _iteration_step lie inside `for _ in range(max_iterations)`, exactly one per path through an iteration; the step performs exactly one sweep",
